@@ -320,7 +320,7 @@ func buildStreams(rng *rand.Rand, thorough bool) []*stream {
 			s := &stream{ID: fmt.Sprintf("%s-big-%d", p, i), Kind: "big", Proto: p}
 			s.add("FLUSHDB")
 			s.add("SET", "k1", "small", "POINT", "33", "-112")
-			s.add("SET", "k1", "big", "STRING", bigValue(rng, 66000+rng.Intn(9000)))
+			s.add("SET", "k1", "big", "STRING", bigValue(rng, 65600+rng.Intn(600)))
 			s.add("GET", "k1", "small")
 			s.add("EXISTS", "k1", "big")
 			if i%2 == 1 {
@@ -331,7 +331,7 @@ func buildStreams(rng *rand.Rand, thorough bool) []*stream {
 			out = append(out, s)
 		}
 		// a command boundary exactly at offset 0xFFFF (and the next command straddling it)
-		if thorough || p != wire.Telnet {
+		if thorough || p == wire.RESP {
 			s := &stream{ID: fmt.Sprintf("%s-edge", p), Kind: "edge", Proto: p}
 			s.add("FLUSHDB")
 			s.add("PING")
@@ -407,7 +407,7 @@ func buildStreams(rng *rand.Rand, thorough bool) []*stream {
 	}
 	for i := 0; i < max(1, nBig); i++ {
 		s := &stream{ID: fmt.Sprintf("http-post-big-%d", i), Kind: "big", Proto: wire.HTTPPost}
-		s.add("SET", "hk", "big", "STRING", bigValue(rng, 66000+rng.Intn(6000)))
+		s.add("SET", "hk", "big", "STRING", bigValue(rng, 65600+rng.Intn(600)))
 		out = append(out, s)
 	}
 	if thorough {
